@@ -18,10 +18,13 @@ import (
 // C08 — bounds are the tight per-dimension box for every geometry and layout mix.
 
 type c08Case struct {
-	Mode   string      `json:"mode"` // geom | extend | overlaps | overlaps-narrow
-	G      *ref.G      `json:"g,omitempty"`
-	Start  geom.Layout `json:"start,omitempty"`
-	Ops    []int       `json:"ops,omitempty"`
+	Mode  string      `json:"mode"` // geom | extend | overlaps | overlaps-narrow
+	G     *ref.G      `json:"g,omitempty"`
+	Start geom.Layout `json:"start,omitempty"`
+	Ops   []int       `json:"ops,omitempty"`
+	// extend: how the start box is made: 0 NewBounds(l); 1 NewBounds(l).SetCoords(min,max);
+	// 2 NewBounds(l).Set(min..., max...) - both with an interval [-500-i, 500+i] in dimension i
+	Init   int         `json:"init,omitempty"`
 	Alpha  string      `json:"alpha,omitempty"` // extend: "" = the layout-mix alphabet, "inf" = one-point geometries with infinite ordinates
 	BoxA   []ref.F     `json:"box_a,omitempty"`
 	BoxB   []ref.F     `json:"box_b,omitempty"`
@@ -56,7 +59,7 @@ func c08LiveQuery(t geom.T, m *ref.G, final bool) string {
 func init() {
 	engine.Register(&engine.Check{
 		ID: "C08", Level: "model_checking",
-		Rule: "(a) every geometry of U (6 layouts, non-monotonic values; plus every {finite,+Inf,-Inf} assignment to one dimension of 3-coordinate lines and multipoints) and every collection of 0..3 members over an 8-member menu (mixed layouts, empty members, nested and empty nested collections): Bounds() per semantic dimension vs reference fold, IsEmpty, Bounds.Polygon, GeoJSON bbox; (b) BFS over Extend histories (depth <=4 quick, <=5 thorough) from NewBounds(l), l in {NoLayout,XY,XYZ,XYM,XYZM}, alphabet = 1-point, 2-point and empty geometry per layout, and a second alphabet of one-point geometries with +Inf/-Inf ordinates: state = (layout, min bits, max bits); every state compared per semantic dimension with the fold over the multiset and with every other history reaching the same multiset; (c) Overlaps/OverlapsPoint on all pairs of boxes with interval endpoints in {0..3} (2D) / {0..2} (3D) incl. empty intervals vs closed-interval arithmetic Also: overlap queries in a narrower layout than the boxes (extra dimensions holding an interval or nothing), and every query / in-place change / query history of length <=3 (thorough 4) on live geometries and collections (members edited or pushed into after the collection was asked for its bounds; the returned box extended by the caller).",
+		Rule: "(a) every geometry of U (6 layouts, non-monotonic values; plus every {finite,+Inf,-Inf} assignment to one dimension of 3-coordinate lines and multipoints) and every collection of 0..3 members over an 8-member menu (mixed layouts, empty members, nested and empty nested collections): Bounds() per semantic dimension vs reference fold, IsEmpty, Bounds.Polygon, GeoJSON bbox; (b) BFS over Extend histories (depth <=4 quick, <=5 thorough) from NewBounds(l), l in {NoLayout,XY,XYZ,XYM,XYZM}, as is or filled through SetCoords / Set, alphabet = 1-point, 2-point and empty geometry per layout, and a second alphabet of one-point geometries with +Inf/-Inf ordinates: state = (layout, min bits, max bits); every state compared per semantic dimension with the fold over the multiset and with every other history reaching the same multiset; (c) Overlaps/OverlapsPoint on all pairs of boxes with interval endpoints in {0..3} (2D) / {0..2} (3D) incl. empty intervals vs closed-interval arithmetic Also: overlap queries in a narrower layout than the boxes (extra dimensions holding an interval or nothing), and every query / in-place change / query history of length <=3 (thorough 4) on live geometries and collections (members edited or pushed into after the collection was asked for its bounds; the returned box extended by the caller).",
 		Run:  c08Run,
 		Replay: func(c *engine.Ctx, kind string, raw json.RawMessage) {
 			if kind == "c08-history" {
@@ -291,12 +294,26 @@ func c08Exec(c *engine.Ctx, cs c08Case, onState func(multiset, key string)) {
 				}
 				names = append(names, fmt.Sprintf("%s/%d", alpha[o].Layout, len(alpha[o].C1)))
 			}
-			c.Violate(fmt.Sprintf("extend%s/start=%s/%s", cs.Alpha, cs.Start, what), fmt.Sprintf("%s; NewBounds(%s) then Extend %v", desc, cs.Start, names), "c08", cs)
+			c.Violate(fmt.Sprintf("extend%s/start=%s/init%d/%s", cs.Alpha, cs.Start, cs.Init, what), fmt.Sprintf("%s; NewBounds(%s) (init %d: 0 as is, 1 SetCoords, 2 Set) then Extend %v", desc, cs.Start, cs.Init, names), "c08", cs)
 		}
 		var b *geom.Bounds
 		acc := dimAcc{}
 		if p, _ := engine.Guard(func() {
 			b = geom.NewBounds(cs.Start)
+			if cs.Init != 0 {
+				st := cs.Start.Stride()
+				lo, hi := make(geom.Coord, st), make(geom.Coord, st)
+				for i := 0; i < st; i++ {
+					lo[i], hi[i] = float64(-500-i), float64(500+i)
+					acc.add(dimName(cs.Start, i), lo[i])
+					acc.add(dimName(cs.Start, i), hi[i])
+				}
+				if cs.Init == 1 {
+					b.SetCoords(lo, hi)
+				} else {
+					b.Set(append(append([]float64{}, lo...), hi...)...)
+				}
+			}
 			for _, o := range cs.Ops {
 				b.Extend(alpha[o].MustBuild())
 				foldModel(alpha[o], acc)
@@ -316,7 +333,7 @@ func c08Exec(c *engine.Ctx, cs c08Case, onState func(multiset, key string)) {
 		if onState != nil {
 			ms := append([]int{}, cs.Ops...)
 			sort.Ints(ms)
-			onState(fmt.Sprint(cs.Start, ms), bStateKey(b))
+			onState(fmt.Sprint(cs.Start, cs.Init, ms), bStateKey(b))
 		}
 	case "overlaps-narrow":
 		// boxes of (possibly) wider layouts than the query layout: only the dimensions of the
@@ -553,37 +570,42 @@ func c08Run(c *engine.Ctx) {
 	for _, alphaName := range []string{"", "inf"} {
 		alpha := extendAlphabetFor(alphaName)
 		for _, start := range []geom.Layout{geom.NoLayout, geom.XY, geom.XYZ, geom.XYM, geom.XYZM} {
-			seen := map[string]struct{}{}
-			byMultiset := map[string]string{}
-			var mu sync.Mutex
-			frontier := [][]int{{}}
-			for d := 1; d <= depth; d++ {
-				var next [][]int
-				c.Parallel(len(frontier), func(i int) {
-					for o := range alpha {
-						h := append(append([]int{}, frontier[i]...), o)
-						c.Count("transitions", 1)
-						cs := c08Case{Mode: "extend", Start: start, Ops: h, Alpha: alphaName}
-						c08Exec(c, cs, func(ms, key string) {
-							mu.Lock()
-							defer mu.Unlock()
-							if prev, ok := byMultiset[ms]; ok && prev != key {
-								c.Violate(fmt.Sprintf("extend%s/start=%s/order-dependent", alphaName, start), fmt.Sprintf("multiset %s reaches %s by one order and %s by another (history %v)", ms, prev, key, h), "c08", cs)
-							} else if !ok {
-								byMultiset[ms] = key
-							}
-							if _, ok := seen[key]; !ok {
-								seen[key] = struct{}{}
-							}
-							// all histories are expanded (the multiset, not the state, determines the reference)
-							next = append(next, h)
-						})
-					}
-				})
-				frontier = next
+			for init := 0; init < 3; init++ {
+				if init > 0 && (start == geom.NoLayout || alphaName != "") {
+					continue
+				}
+				seen := map[string]struct{}{}
+				byMultiset := map[string]string{}
+				var mu sync.Mutex
+				frontier := [][]int{{}}
+				for d := 1; d <= depth; d++ {
+					var next [][]int
+					c.Parallel(len(frontier), func(i int) {
+						for o := range alpha {
+							h := append(append([]int{}, frontier[i]...), o)
+							c.Count("transitions", 1)
+							cs := c08Case{Mode: "extend", Start: start, Ops: h, Alpha: alphaName, Init: init}
+							c08Exec(c, cs, func(ms, key string) {
+								mu.Lock()
+								defer mu.Unlock()
+								if prev, ok := byMultiset[ms]; ok && prev != key {
+									c.Violate(fmt.Sprintf("extend%s/start=%s/order-dependent", alphaName, start), fmt.Sprintf("multiset %s reaches %s by one order and %s by another (history %v)", ms, prev, key, h), "c08", cs)
+								} else if !ok {
+									byMultiset[ms] = key
+								}
+								if _, ok := seen[key]; !ok {
+									seen[key] = struct{}{}
+								}
+								// all histories are expanded (the multiset, not the state, determines the reference)
+								next = append(next, h)
+							})
+						}
+					})
+					frontier = next
+				}
+				c.Count("states", int64(len(seen)))
+				c.Count("multisets", int64(len(byMultiset)))
 			}
-			c.Count("states", int64(len(seen)))
-			c.Count("multisets", int64(len(byMultiset)))
 		}
 	}
 	// (c) overlap tests
